@@ -82,6 +82,9 @@ type sentMsg struct {
 }
 
 var edgeLens = []int{8, 9, 4095 - 10, 4096 - 10, 4097 - 10, 8192 - 10, 8193 - 10, 300}
+
+// with WebSocket consumers also the payload sizes around a 65535 / 65536-byte FLV tag (tag = 11 + n + 4 bytes)
+var wsEdgeLens = []int{8, 9, 4096 - 10, 300, 65520 - 10, 65521 - 10, 65522 - 10, 8193 - 10, 65521, 120}
 var tsPool = []uint32{0, 1, 40, 0xFFFFFE, 0xFFFFFF, 0x1000000, 0x7FFFFFFF, 0x80000000, 0xFFFFFFFF, 5}
 
 func init() { Registry["group"] = groupDriver }
@@ -425,13 +428,17 @@ func runGroupScenario(sc *gScenario, tw *TraceWriter, tmp string, seed int64) {
 			}
 			if sc.Cfg.LenMode == "edges" {
 				n = edgeLens[(m.Id+int(seed)+sc.Sc)%len(edgeLens)]
+				if sc.Cfg.Ws && sc.Sc%4 == 0 {
+					n = wsEdgeLens[(m.Id+int(seed)+sc.Sc/4)%len(wsEdgeLens)]
+				}
 			}
 			ts := tsPool[(m.Id*3+int(seed)+sc.Sc)%len(tsPool)]
 			msg := BuildMsg(m, n, ts)
 			ts = msg.Header.TimestampAbs
-			s := &sentMsg{msg: msg.Clone(), woSdf: msg.Payload}
+			s := &sentMsg{msg: msg.Clone()}
+			s.woSdf = s.msg.Payload
 			if m.T == "meta" && m.Id%2 == 1 {
-				s.woSdf = msg.Payload[16:]
+				s.woSdf = s.msg.Payload[16:]
 			}
 			sent[m.Id] = s
 			wsize := 0
@@ -444,6 +451,11 @@ func runGroupScenario(sc *gScenario, tw *TraceWriter, tmp string, seed int64) {
 				}
 			}
 			g.OnReadRtmpAvMsg(msg)
+			// the publisher's read loop reuses its buffer for the next message (rtmp.ChunkComposer does): whatever lal
+			// keeps of this one must be its own copy
+			for i := range msg.Payload {
+				msg.Payload[i] ^= 0x5a
+			}
 			waitPush(st.Del)
 			del, bad := drainAll()
 			mm := *m
